@@ -9,7 +9,7 @@ use std::str::FromStr;
 pub const META_C16: Meta = Meta {
     id: "C16",
     level: "exploration",
-    rule: "Faithful part: a generated circuit description {0-12 elements In/Clock/Out/other with labels from an adversarial pool (C, C_out, D, D_out, A_out_out, labels with spaces, &, <, non-ASCII, the format's own attribute keys Bits / InDefault / Label / Testdata, omitted), widths {absent,1,8,64,0,junk}, defaults {absent, number, negative, z=true, junk}; 0-5 Testcase elements with duplicate / absent labels and sources whose headers reference pins, `<pin>_out` forms and sometimes undeclared names} is rendered to .dig XML (entry order shuffled, unrelated entries and comments interleaved, indentation and CRLF varied, entities or CDATA) and parsed. Oracle from the description alone: Err iff some test has no header line / duplicate header names / a header name that is neither a pin label nor `<In/Clock pin>_out`; otherwise Ok with the multiset of signals equal to the description (width 1 if unspecified, default number / Z / 0), S bidirectional iff some header uses S_out, S is an In/Clock pin and no pin is labelled S_out, and test cases = (label or \"(unnamed)\", source verbatim) in document order; for every i load_test(i) must equal from_str(source_i).with_signals(file.signals) (both Ok and ==, or both Err with the same text), load_test_by_name = first test with that label, out-of-range index / unknown name = Err. Totality part: 6 corruptions of each rendered document (truncation, tag deletion, swapped closers, entity garbage, CRLF, BOM, non-ASCII) plus corruptions of the repo's own .dig fixtures must give Ok or Err, never a panic, and every load_test on an Ok result must not panic. Non-trivial = >= 2 pins of different direction and >= 1 test (or a corruption of such a document); distinct by document text.",
+    rule: "Faithful part: a generated circuit description {0-12 elements In/Clock/Out/other with labels from an adversarial pool (C, C_out, D, D_out, A_out_out, labels with spaces, &, <, non-ASCII, the format's own attribute keys Bits / InDefault / Label / Testdata, omitted), widths {absent,1,8,64,0,junk}, defaults {absent, number, negative, z=true, junk}; 0-5 Testcase elements with duplicate / absent labels and sources whose headers reference pins, `<pin>_out` forms and sometimes undeclared names} is rendered to .dig XML (entry order shuffled, unrelated entries and comments interleaved, indentation and CRLF varied, entities or CDATA) and parsed. Oracle from the description alone: Err iff some test has no header line / duplicate header names / a header name that is neither a pin label nor `<In/Clock pin>_out`; otherwise Ok with the multiset of signals equal to the description (width 1 if unspecified, default number / Z / 0), S bidirectional iff some header uses S_out, S is an In/Clock pin and no pin is labelled S_out, and test cases = (label or \"(unnamed)\", source verbatim) in document order; for every i load_test(i) must equal from_str(source_i).with_signals(file.signals) (both Ok and ==, or both Err with the same text), load_test_by_name = first test with that label, out-of-range index / unknown name = Err; 15% of the documents are also parsed through str::parse::<dig::File>() and 3% written to a scratch file and loaded through dig::File::open - same Ok/Err verdict, same signals and tests. Totality part: 6 corruptions of each rendered document (truncation, tag deletion, swapped closers, entity garbage, CRLF, BOM, non-ASCII) plus corruptions of the repo's own .dig fixtures must give Ok or Err, never a panic, and every load_test on an Ok result must not panic. Non-trivial = >= 2 pins of different direction and >= 1 test (or a corruption of such a document); distinct by document text.",
     assumptions: &["documents with duplicate pin labels or junk widths/defaults are only checked for totality (the statement does not define them)", "a Testcase whose Label entry is present but empty, or whose dataString is empty, is outside the generated domain"],
     quick_cases: 40000,
     thorough_cases: 800000,
@@ -442,6 +442,54 @@ pub fn c16(case_seed: u64, acc: &mut Acc) {
     let got = guarded(|| dig::File::parse(&doc));
     let ex = expect(&c);
     let case = || json!({"document": doc, "description": c});
+    // the other two ways in: `str::parse::<dig::File>()` and, through a scratch file,
+    // `dig::File::open` must agree with `dig::File::parse` on every document
+    if let Ok(base) = &got {
+        type Summary = Result<(Vec<ESig>, Vec<(String, String)>), String>;
+        // (error texts are not compared: the message listing unknown header names enumerates a
+        // HashSet, so its order differs from one parse of the same document to the next - no
+        // property speaks about that text)
+        let summary = |r: Result<dig::File, digital_test_runner::errors::DigFileError>| -> Summary {
+            r.map(|f| (observed_sigs(&f), f.test_cases.iter().map(|t| (t.name.clone(), t.source.clone())).collect())).map_err(|_| String::new())
+        };
+        let base_s: Summary = match base {
+            Ok(f) => Ok((observed_sigs(f), f.test_cases.iter().map(|t| (t.name.clone(), t.source.clone())).collect())),
+            Err(_) => Err(String::new()),
+        };
+        if r.chance(150, 1000) {
+            acc.evaluations += 1;
+            match guarded(|| summary(doc.parse::<dig::File>())) {
+                Err(p) => {
+                    acc.violation(case_seed, "from_str", Finding::new(p.signature(), format!("str::parse::<dig::File>() panicked: {p:?}")), case());
+                    return;
+                }
+                Ok(s2) if s2 != base_s => {
+                    acc.violation(case_seed, "from_str", Finding::new("from-str-differs-from-parse", format!("{:?} vs {:?}", s2.as_ref().map(|x| x.0.len()), base_s.as_ref().map(|x| x.0.len()))), case());
+                    return;
+                }
+                Ok(_) => acc.event("from_str_compared_with_parse", 1),
+            }
+        }
+        if !cfg!(miri) && r.chance(30, 1000) {
+            let path = std::env::temp_dir().join(format!("dtrmon-{}-{:x}.dig", std::process::id(), h));
+            if std::fs::write(&path, doc.as_bytes()).is_ok() {
+                acc.evaluations += 1;
+                let via_open = guarded(|| summary(dig::File::open(&path)));
+                let _ = std::fs::remove_file(&path);
+                match via_open {
+                    Err(p) => {
+                        acc.violation(case_seed, "open", Finding::new(p.signature(), format!("dig::File::open panicked: {p:?}")), case());
+                        return;
+                    }
+                    Ok(s2) if s2 != base_s => {
+                        acc.violation(case_seed, "open", Finding::new("open-differs-from-parse", format!("{:?} vs {:?}", s2.as_ref().map(|x| x.0.len()), base_s.as_ref().map(|x| x.0.len()))), case());
+                        return;
+                    }
+                    Ok(_) => acc.event("open_of_generated_document_compared_with_parse", 1),
+                }
+            }
+        }
+    }
     let f: Option<Finding> = match (&got, &ex) {
         (Err(p), _) => Some(Finding::new(p.signature(), format!("dig::File::parse panicked: {p:?}"))),
         (Ok(Ok(_)), Expect::Err(why)) => Some(Finding::new("dig-accepts-bad-description", format!("parse is Ok but the description must be refused: {why}"))),
